@@ -458,6 +458,11 @@ fn eval_code_in_namespace(
         let _ = response_tx.send(Value::Dict(warn_msg));
     }
 
+    // Verification hook H4: the code has been parsed and loaded (and any
+    // diagnostics sent); the interpreter loop has not started yet.
+    #[cfg(wilfred_garden_verif)]
+    verif_point("before_eval_loop");
+
     // Stream stdout/stderr to the client while the eval runs rather
     // than buffering everything until it finishes. This keeps output
     // flowing for a long-running eval and bounds the buffers for an
